@@ -222,6 +222,7 @@ func ExpandWorld(w *model.World, o Opts, faults []sim.Fault, orderKey uint64, bu
 	}
 	ctx := sim.NewOpCtx(orderKey, budget)
 	ctx.Funcs = FuncCounts
+	ctx.Shadow = ShadowLoader(w)
 	ex.Ctx = ctx
 	ex.Out = sim.RunSeq(ctx, func() {
 		ex.Err = spec.ExpandSpec(sw, opts)
